@@ -78,7 +78,8 @@ Fixpoint acontent_from (ss : list ashard) (sl : list slot) : list row :=
 Definition sl_equiv (s1 s2 : list slot) : Prop := forall C g, fill s1 C g = fill s2 C g.
 Definition closed (sl : list slot) : Prop := forall C g, fill sl C g = Ok C.
 
-Definition acv_ok (a : acv) : Prop := 0 < fst a /\ Forall (fun r : row => zlen r = fst a) (snd a).
+Definition acv_ok (a : acv) : Prop :=
+  0 < fst a /\ Forall (fun r : row => zlen r = fst a /\ row_cleanb r = true) (snd a).
 Definition body_width (b : list acv) : Z := fold_right (fun a acc => fst a + acc) 0 b.
 
 Fixpoint AWF (w : Z) (ss : list ashard) (sl : list slot) : Prop :=
@@ -226,11 +227,11 @@ Lemma body_cols_abs sb : body_cols sb = body_width (map abs_e sb).
 Proof. induction sb as [|[d cv] sb IH]; cbn [body_cols body_width fold_right map abs_e fst snd]; [reflexivity|]. unfold body_cols, body_width in IH. now rewrite IH. Qed.
 
 Lemma abs_cv_ok cv : cview_ok cv -> acv_ok (abs_cv cv).
-Proof. intros H. split; cbn [abs_cv fst snd]; [apply (cview_ok_pos _ H)|apply rows_of_width, H]. Qed.
+Proof. intros H. split; cbn [abs_cv fst snd]; [apply (cview_ok_pos _ H)|apply Forall_and; [apply rows_of_width, H|apply rows_of_clean, H]]. Qed.
 
 Lemma abs_e_ok e : entry_ok e -> acv_ok (abs_e e).
 Proof.
-  intros [? H]. split; cbn [abs_e fst snd]; [apply (cview_ok_pos _ H)|apply Forall_dropz, rows_of_width, H].
+  intros [? H]. split; cbn [abs_e fst snd]; [apply (cview_ok_pos _ H)|apply Forall_dropz, Forall_and; [apply rows_of_width, H|apply rows_of_clean, H]].
 Qed.
 
 Definition shards_ok (ss : shards) : Prop := Forall (fun s : shard => Forall cview_ok (snd s)) ss.
